@@ -11,7 +11,7 @@
 //!   item      {item: enum|struct|const|static|type|trait|macro_rules|union, name}
 //!   in_fn     {fn: <fn|impl_fn locator>, what: let|match|macro_rules|expr_stmt, ...}
 //!               let:   {binds: "reset"}                the whole `let` statement
-//!               match: {nth: k} | {scrutinee: "text"}  a match expression (with arms)
+//!               match: {nth: k} | {scrutinee: "text", arm0?: "first arm pattern", nth?}  a match expression (with arms)
 //!               macro_rules: {name}                    a local macro definition
 //! Options on any locator: "attrs": "keep"|"strip" (default keep).
 use proc_macro2::Span;
@@ -403,6 +403,13 @@ fn do_fragment(root: &str, spec: &Value) -> Result<Value, String> {
                         .filter(|m| {
                             let (a, e) = src.range(m.expr.span());
                             squash(&src.text[a..e]) == squash(s)
+                        })
+                        .filter(|m| match loc["arm0"].as_str() {
+                            None => true,
+                            Some(p) => m.arms.first().map_or(false, |arm| {
+                                let (a, e) = src.range(arm.pat.span());
+                                squash(&src.text[a..e]) == squash(p)
+                            }),
                         })
                         .collect();
                     let nth = loc["nth"].as_u64().map(|n| n as usize);
